@@ -1,3 +1,6 @@
+CONSTANTS
+  Weak_BitArrayUnchecked = FALSE
+  Weak_ProposalTotalUnbounded = FALSE
 INIT Init
 NEXT Next
 CHECK_DEADLOCK FALSE
